@@ -48,3 +48,6 @@ CFG = {
 }
 
 CFG["level_extra"] = ("The zf-antisymmetry premise of the mirror theorem is discharged for the real (exact-arithmetic) centroid formula of matching.rs and the row positions of padwing/map.rs (C13_centroid_antisymmetric_real, C13_pad_row_z_antisymmetric, C13_mirror_equivariant_real); what remains between that and binary64 is rounding, bounded by the property's 1e-9 m and measured by rel-mir.")
+
+# the pinned theorems depend on regenerated tables (coq/Gen): a failing translator is a broken tie
+CFG["uses_gen"] = True
